@@ -22,10 +22,10 @@ import numpy as np
 from lib import common as C
 
 LEVEL = "proof"
-STATIC = ["Geometry/Dimensionality.vo", "Geometry/DimensionalityProofs.vo", "Geometry/DimensionalityInvariance.vo", "Base/Cover.vo", "Base/CaseUtil.vo"]
+STATIC = ["Geometry/Dimensionality.vo", "Geometry/DimensionalityProofs.vo", "Geometry/DimensionalityInvariance.vo", "Geometry/RankDet.vo", "Base/Cover.vo", "Base/CaseUtil.vo"]
 G = 4096  # grid: coordinates are integer multiples of 2^-12
 PREAMBLE = ("From Coq Require Import List ZArith Bool.\nImport ListNotations.\n"
-            "From MV Require Import Geometry.Dimensionality.\n")
+            "From MV Require Import Geometry.Dimensionality Geometry.RankDet.\n")
 CORPUS = os.path.join(C.VERIF, "corpus", "C09")
 
 COV_Z = [1, 6, 7, 8, 14, 16, 26, 29, 47, 79, 55, 11, 17]
@@ -521,9 +521,11 @@ def pbc_lit(p):
 
 
 def term_check(case, orc, r):
-    return "check_case %s %s %s %s %s %s %s" % (
+    # ... and the elimination rank of the specification equals the determinantal rank whose invariance is proved (RankDet.v)
+    return "andb (check_case %s %s %s %s %s %s %s) (rankZ_consistent %s %s %s)" % (
         nat(len(case["numbers"])), pbc_lit(case["pbc"]), e_lit(orc["E"]), optz(r.get("dim")),
-        C.listlit(nat(x) for x in (r.get("labels") or [])), optz(orc["dim"]), C.boollit(orc["mismatch"]))
+        C.listlit(nat(x) for x in (r.get("labels") or [])), optz(orc["dim"]), C.boollit(orc["mismatch"]),
+        nat(len(case["numbers"])), pbc_lit(case["pbc"]), e_lit(orc["E"]))
 
 
 def term_pair(c1, o1, c2, o2):
